@@ -433,7 +433,24 @@ func c05StanzaEncoder(c *cx) {
 			c.dom(id, f, w.Stmt, "depth--", []string{"istype(*;encoding/xml.EndElement)"})
 			c.onlyFacts(id, f, w.Stmt, "depth--", []string{"istype(*;encoding/xml.EndElement)"})
 		default:
-			c.r.Check(id, f, "write to depth", "depth only changes by ++/--", w.Stmt.Pos(), false, "depth written with "+w.Tok.String())
+			// the one other write allowed: putting back the value the depth had
+			// on entry, on the edge where the wrapped encoder refused the token
+			// (nothing was written, the element was neither opened nor closed)
+			restore := false
+			if w.Tok == token.ASSIGN && w.RHS != nil {
+				if rid, ok := ast.Unparen(w.RHS).(*ast.Ident); ok {
+					if rv, ok := f.Info().ObjectOf(rid).(*types.Var); ok {
+						ds := g.DefsOf(rv)
+						if len(ds) == 1 && ds[0].RHS != nil && f.Norm(ds[0].RHS, nil) == "recv.depth" && ds[0].At.B == 0 {
+							wp, _ := g.Where(w.Stmt)
+							if okd, _ := g.DominatedAny(wp, []string{"!eq(*.EncodeToken[*](*),nil)"}); okd {
+								restore = true
+							}
+						}
+					}
+				}
+			}
+			c.r.Check(id, f, "write to depth", "depth only changes by ++/--, or is put back to its value on entry when the wrapped encoder refused the token", w.Stmt.Pos(), restore, "depth written with "+w.Tok.String())
 		}
 	}
 	// who may write the depth: nobody but EncodeToken (a "resync" elsewhere
@@ -451,10 +468,77 @@ func c05StanzaEncoder(c *cx) {
 			}
 		}
 	}
+	// E-alias: the attribute lists EncodeToken builds do not share their backing
+	// array with the start element it was given (a shallow copy of the caller's):
+	// filtering "in place" (tok.Attr[:0]) rewrites the caller's attributes, and a
+	// start element that is sent twice goes out with duplicated attributes and
+	// the previous stanza's id
+	nAl := 0
+	for _, d := range g.AllDefs() {
+		if d.RHS == nil || !eng.IsLocal(d.Var) || eng.TypeStr(d.Var.Type()) != "[]encoding/xml.Attr" {
+			continue
+		}
+		// only lists that are appended to
+		appended := false
+		for _, w := range f.Writes() {
+			if call, ok := ast.Unparen(w.RHS).(*ast.CallExpr); ok && w.RHS != nil && f.CalleeID(call) == "builtin.append" && len(call.Args) > 0 {
+				if idn, ok := ast.Unparen(call.Args[0]).(*ast.Ident); ok && f.Info().ObjectOf(idn) == types.Object(d.Var) {
+					appended = true
+				}
+			}
+		}
+		if !appended {
+			continue
+		}
+		if call, ok := ast.Unparen(d.RHS).(*ast.CallExpr); ok && f.CalleeID(call) == "builtin.append" {
+			continue // the append chain itself
+		}
+		nAl++
+		okf, why := freshSlice(f, d.RHS, d.At, map[*eng.Def]bool{})
+		c.r.Check(id, f, "attribute list "+f.LocalName(d.Var), "E-alias: a list that EncodeToken appends attributes to starts from storage allocated in this call", d.Node.Pos(), okf, why)
+	}
+	c.r.Floor(id, "attribute lists built by EncodeToken", nAl, 2)
+	// a refused token changes nothing: the wrapped encoder writes nothing when
+	// it returns an error for a start or end token (a start tag without a
+	// name), so the depth must not stay changed either: otherwise every later
+	// top-level stanza is taken for a child (no namespace, no id, no from)
+	nDel := 0
+	for _, cl := range f.AllCalls() {
+		if !strings.HasSuffix(f.CalleeID(cl), ".EncodeToken") || f.CalleeID(cl) == "xmpp.stanzaEncoder.EncodeToken" {
+			continue
+		}
+		nDel++
+		cp, _ := g.Where(cl)
+		cn := f.Norm(cl, &cp)
+		restored := func(q eng.Point, nd ast.Node) bool {
+			as, ok := nd.(*ast.AssignStmt)
+			return ok && len(as.Lhs) == 1 && f.Norm(as.Lhs[0], nil) == "recv.depth"
+		}
+		bad := ""
+		if _, isRet := g.Parent(cl).(*ast.ReturnStmt); isRet {
+			bad = "the wrapped encoder's result is returned directly: when it refuses the token the depth stays changed"
+		}
+		for _, ce := range g.EdgesMatching("!eq(" + cn + ",nil)") {
+			from := g.EdgeTarget(ce.E)
+			for _, rs := range g.Returns {
+				rp, _ := g.Where(rs)
+				if g.Reachable(from, rp, nil, restored) {
+					bad = "the error of the wrapped encoder reaches the return at " + c.p.Pos(rs.Pos()) + " with the depth still changed"
+				}
+			}
+		}
+		c.r.Check(id, f, "depth put back when the token is refused", "O: on the failure edge of the wrapped EncodeToken every return passes a write that restores recv.depth", cl.Pos(), bad == "", bad)
+	}
+	c.r.Floor(id, "delegations to the wrapped encoder", nDel, 1)
 	c.r.Check(id, f, "depth bookkeeping", "one depth++ in the start arm, one depth-- in the end arm", f.Pos(), inc == 1 && dec == 1, "found "+itoa(inc)+" increments and "+itoa(dec)+" decrements")
 	// the token is forwarded on every path
 	for _, rs := range g.Returns {
 		okf := f.ContainsCall(rs, "*.EncodeToken") != nil
+		if !okf && len(rs.Results) == 1 {
+			// `err := w.EncodeToken(t); ...; return err`
+			rp, _ := g.Where(rs)
+			okf = eng.Glob("*.EncodeToken[*](*)", f.Norm(rs.Results[0], &rp))
+		}
 		c.r.Check(id, f, "token forwarded", "every return forwards the token to the wrapped encoder", rs.Pos(), okf, "a return does not forward the token")
 	}
 	// name tables
